@@ -157,4 +157,196 @@ example : ∃ d, Read.all text.toList = ([d], none) ∧ d.strip = datum := by
   rw [e, datumOf_strip] at h
   exact h
 
+/-! ## 4. Read back, the datum becomes an equal value of the same exactness -/
+
+/-- READ_BACK_EQUAL. `read_literal` (what evaluating `(quote d)` does) turns any datum `d` that
+is, up to locations, the datum of a readable value `v` into a value `w` structurally equal to
+`v`, in *any* store `τ` — the one `v` lives in or another: integers come back as the same
+integers; a ratio `n/d` comes back through `exact_ratio n d`, which returns the same ratio
+because `n/d` is in lowest terms (`Num.WF`), so exactness and value are preserved; characters,
+booleans, symbols and `()` are identical; pairs are equal component-wise; every vector is a fresh
+(immutable) cell whose items are equal item-wise. No error, and `τ` only grows. -/
+theorem read_back_equal (σ : Store) (v : Value) (hv : Readable σ v) (d : Datum)
+    (hd : d.strip = (datumOf σ v).strip) (τ : Store) :
+    ∃ w τ', Eval.readLiteral τ d = (.ok w, τ') ∧ Extends τ τ' ∧ equalV σ v τ' w := by
+  have h := readsBack_datumN σ _ v hv τ
+  rw [← readLiteral_strip d τ, hd, datumOf_strip]
+  exact h
+
+/-- The usual case: `v` lives in the store `σ` in which its text is read back. Then both values
+live in the final store. -/
+theorem read_back_equal_same_store (σ : Store) (v : Value) (hv : Readable σ v) (d : Datum)
+    (hd : d.strip = (datumOf σ v).strip) :
+    ∃ w σ', Eval.readLiteral σ d = (.ok w, σ') ∧ Extends σ σ' ∧ equalV σ' v σ' w := by
+  obtain ⟨w, σ', h1, h2, h3⟩ := read_back_equal σ v hv d hd σ
+  exact ⟨w, σ', h1, h2, h3.mono_left h2⟩
+
+/-- The exactness part spelled out: the value read back for a printed number is *the same*
+number (same representation, in particular the same exactness). -/
+theorem read_back_number (σ : Store) (x : Num) (hv : Readable σ (.num x)) (d : Datum)
+    (hd : d.strip = (datumOf σ (.num x)).strip) (τ : Store) :
+    Eval.readLiteral τ d = (.ok (.num x), τ) := by
+  obtain ⟨w, τ', h1, -, h3⟩ := read_back_equal σ (.num x) hv d hd τ
+  cases h3
+  have hp : ∃ p, (datumOf σ (.num x)).strip = .prim p none := by
+    unfold Readable at hv; unfold datumOf
+    generalize σ.vecs.size = n at hv ⊢
+    cases n <;> cases x <;> first | exact ⟨_, rfl⟩ | (simp [readableN, readableStep] at hv)
+  obtain ⟨p, hp⟩ := hp
+  have hs : (Eval.readLiteral τ d).2 = τ := readLiteral_prim_store τ d p (hd.trans hp)
+  rw [h1] at hs
+  simp only at hs
+  rw [h1, hs]
+
+/-- DISPLAY_QUOTE_READ_EQUAL (2 and 3 combined). The text `display` prints for a readable value
+is read as one datum `d`, and evaluating the expression `(quote d)` — in any store, environment
+and with any non-zero fuel — yields, without error, a value structurally equal to the one that
+was printed. -/
+theorem display_quote_read_equal (σ : Store) (v : Value) (fuel : Nat) (hv : Readable σ v)
+    (hf : (datumOf σ v).size ≤ fuel) (τ : Store) (ρ k : Nat) (loc : Loc) :
+    ∃ d w τ', Read.all (Prim.display σ fuel v).toList = ([d], none) ∧
+      Eval.readLiteral τ d = (.ok w, τ') ∧
+      Eval.evalExpr (k + 1) τ ρ (.quote d loc) = (.ok w, τ') ∧
+      Extends τ τ' ∧ equalV σ v τ' w := by
+  obtain ⟨d, h1, h2⟩ := display_read_roundtrip σ v fuel hv hf
+  obtain ⟨w, τ', h3, h4, h5⟩ := read_back_equal σ v hv d h2 τ
+  exact ⟨d, w, τ', h1, h3, by simp only [Eval.evalExpr, h3], h4, h5⟩
+
+section Example
+/-- the sample, read back into the store it came from: the new vector is a fresh cell (2) -/
+example : ∃ d, Read.all (Prim.display store 100000 value).toList = ([d], none) ∧
+    Eval.readLiteral store d
+      = (.ok (Value.ofList [.num (.int 1), .num (.rat (-1) 2), .char 'a',
+          .pair (.sym "x") (.sym "y"), .vec 2]),
+         { store with vecs := store.vecs.push { mutable := false, items := [.bool true, .nil] } })
+    := by
+  obtain ⟨d, h1, h2⟩ := display_read_roundtrip store value 100000 (by decide) (by decide)
+  refine ⟨d, h1, ?_⟩
+  rw [← readLiteral_strip d store, h2, datumOf_strip]
+  rfl
+
+example : ∃ d w τ', Read.all (Prim.display store 100000 value).toList = ([d], none) ∧
+    Eval.readLiteral store d = (.ok w, τ') ∧ equalV store value τ' w := by
+  obtain ⟨d, w, τ', h1, h2, -, -, h3⟩ :=
+    display_quote_read_equal store value 100000 (by decide) (by decide) store 0 0 none
+  exact ⟨d, w, τ', h1, h2, h3⟩
+end Example
+
+/-! ## 5. Distinct values print differently -/
+
+/-- DISPLAY_INJECTIVE. If two readable values — in the same store or in two different ones, with
+whatever (sufficient) fuel — print the same text, they are structurally equal: same atoms, same
+numbers of the same exactness, equal components, equal vector items. Contrapositive: distinct
+values print differently. (Reading is a function: both data are what the common text reads as.) -/
+theorem display_injective (σ₁ σ₂ : Store) (v₁ v₂ : Value) (f₁ f₂ : Nat)
+    (h₁ : Readable σ₁ v₁) (h₂ : Readable σ₂ v₂)
+    (hf₁ : (datumOf σ₁ v₁).size ≤ f₁) (hf₂ : (datumOf σ₂ v₂).size ≤ f₂)
+    (h : Prim.display σ₁ f₁ v₁ = Prim.display σ₂ f₂ v₂) : equalV σ₁ v₁ σ₂ v₂ := by
+  obtain ⟨d₁, r₁, e₁⟩ := display_read_roundtrip σ₁ v₁ f₁ h₁ hf₁
+  obtain ⟨d₂, r₂, e₂⟩ := display_read_roundtrip σ₂ v₂ f₂ h₂ hf₂
+  rw [h, r₂] at r₁
+  simp only [Prod.mk.injEq, List.cons.injEq, and_true] at r₁
+  subst r₁
+  rw [e₂, datumOf_strip, datumOf_strip] at e₁
+  exact equalV_of_datumN σ₁ σ₂ _ _ v₁ v₂ h₁ h₂ e₁.symm
+
+/-- In particular for atoms: readable numbers, booleans, characters and symbols that print the
+same are the same. -/
+theorem display_injective_atoms (σ : Store) (v₁ v₂ : Value) (f₁ f₂ : Nat)
+    (h₁ : Readable σ v₁) (h₂ : Readable σ v₂)
+    (hf₁ : (datumOf σ v₁).size ≤ f₁) (hf₂ : (datumOf σ v₂).size ≤ f₂)
+    (ha : isAtomic v₁ = true) (hn : ∀ id, v₁ ≠ .vec id)
+    (h : Prim.display σ f₁ v₁ = Prim.display σ f₂ v₂) : v₁ = v₂ := by
+  have := display_injective σ σ v₁ v₂ f₁ f₂ h₁ h₂ hf₁ hf₂ h
+  cases this with
+  | vec => exact absurd rfl (hn _)
+  | pair => simp [isAtomic] at ha
+  | _ => rfl
+
+section Example
+/-- `1/2` and `-1/2`, `(x . y)` and `(x y)` print differently -/
+example : Prim.display store 10 (.num (.rat 1 2)) ≠ Prim.display store 10 (.num (.rat (-1) 2)) := by
+  intro h
+  have := display_injective_atoms store _ _ 10 10 (by decide) (by decide) (by decide) (by decide)
+    rfl (by simp) h
+  simp at this
+
+example : ¬ equalV store (.pair (.sym "x") (.sym "y")) store (Value.ofList [.sym "x", .sym "y"]) := by
+  intro h
+  cases h with
+  | pair _ h2 => cases h2
+end Example
+
+/-! ## 6. Nested structure is preserved -/
+
+/-- NESTED_STRUCTURE_PRESERVED. `datumOf` maps pairs to pairs, lists to lists of the same length
+(improper tails to improper tails) and vectors to vectors of the same length, element by
+element, to any depth; and a pair / list / vector is readable exactly when its components are
+(for a vector: and its cell exists). So the text printed for a compound value is the written
+form of a datum of exactly the same shape, which (`display_quote_read_equal`) reads back as a
+value of that shape again. -/
+theorem nested_structure_preserved (σ : Store) :
+    (∀ a d, datumOf σ (.pair a d) = .pair (datumOf σ a) (datumOf σ d) none ∧
+      (Readable σ (.pair a d) ↔ Readable σ a ∧ Readable σ d)) ∧
+    (∀ xs t, datumOf σ (consTail xs t)
+        = (xs.map (datumOf σ)).foldr (fun x acc => .pair x acc none) (datumOf σ t) ∧
+      (Readable σ (consTail xs t) ↔ (∀ x ∈ xs, Readable σ x) ∧ Readable σ t)) ∧
+    (∀ xs, datumOf σ (Value.ofList xs) = Datum.ofList none (xs.map (datumOf σ)) ∧
+      (Datum.ofList none (xs.map (datumOf σ))).elems.length = xs.length) ∧
+    (∀ id, Readable σ (.vec id) →
+      ∃ cell, σ.vecs[id]? = some cell ∧ (∀ x ∈ cell.items, Readable σ x) ∧
+        datumOf σ (.vec id) = .vec (cell.items.map (datumOf σ)) none ∧
+        (cell.items.map (datumOf σ)).length = cell.items.length ∧
+        ∀ i (h : i < cell.items.length),
+          (cell.items.map (datumOf σ))[i]'(by simpa using h) = datumOf σ cell.items[i]) := by
+  have hp : ∀ a d, datumOf σ (.pair a d) = .pair (datumOf σ a) (datumOf σ d) none ∧
+      (Readable σ (.pair a d) ↔ Readable σ a ∧ Readable σ d) := by
+    intro a d
+    refine ⟨datumN_pair σ _ a d, ?_⟩
+    simp only [Readable, readableN_pair, Bool.and_eq_true]
+  have hc : ∀ xs t, datumOf σ (consTail xs t)
+        = (xs.map (datumOf σ)).foldr (fun x acc => .pair x acc none) (datumOf σ t) ∧
+      (Readable σ (consTail xs t) ↔ (∀ x ∈ xs, Readable σ x) ∧ Readable σ t) := by
+    intro xs t
+    induction xs with
+    | nil => simp [consTail]
+    | cons x xs ih =>
+      simp only [consTail, List.foldr_cons, List.map_cons] at ih ⊢
+      rw [(hp x _).1, (hp x _).2, ih.1, ih.2]
+      simp [and_assoc]
+  refine ⟨hp, hc, ?_, ?_⟩
+  · intro xs
+    induction xs with
+    | nil =>
+      refine ⟨?_, rfl⟩
+      unfold datumOf; cases σ.vecs.size <;> rfl
+    | cons x xs ih =>
+      simp only [Value.ofList, List.map_cons, Datum.ofList, (hp x _).1, ih.1, true_and]
+      have := ih.2
+      simp only [Datum.elems, Datum.spine] at this ⊢
+      revert this
+      rcases Datum.spine (Datum.ofList none (xs.map (datumOf σ))) with ⟨ys, _ | t⟩ <;>
+        simp
+  · intro id hv
+    obtain ⟨cell, h1, h2, h3⟩ := readableN_vec σ _ id hv
+    exact ⟨cell, h1, h2, h3, by simp, fun i h => by simp⟩
+
+section Example
+/-- the sample: a list of five elements, the fourth a pair, the fifth a vector of two items -/
+example : (datumOf store value).elems.length = 5 := by
+  have h := ((nested_structure_preserved store).2.2.1
+    [.num (.int 1), .num (.rat (-1) 2), .char 'a', .pair (.sym "x") (.sym "y"), .vec 1])
+  have e : value = Value.ofList
+    [.num (.int 1), .num (.rat (-1) 2), .char 'a', .pair (.sym "x") (.sym "y"), .vec 1] := rfl
+  rw [e, h.1]; exact h.2
+
+example : datumOf store (.vec 1) = .vec [datumOf store (.bool true), datumOf store .nil] none := by
+  obtain ⟨cell, h1, -, h3, -⟩ := (nested_structure_preserved store).2.2.2 1 (by decide)
+  have : cell = { mutable := true, items := [.bool true, .nil] } := by
+    have : store.vecs[1]? = some { mutable := true, items := [.bool true, .nil] } := rfl
+    rw [this] at h1; exact (Option.some.inj h1).symm
+  subst this
+  exact h3
+end Example
+
 end Ruschm.C16
